@@ -52,6 +52,16 @@ class AliasRewriter(NodeTransformer):
             new_owner = self.visit(node.owner)
             return ast.Attribute(new_owner, node.attr)
 
+    def visit_Call(self, node: ast.Call) -> ast._Node:
+        """:meta private:"""
+        # The function name is not a field reference, only rewrite the arguments:
+        return ast.Call(node.func, [self.visit(arg) for arg in node.args])
+
+    def visit_NamedParam(self, node: ast.NamedParam) -> ast._Node:
+        """:meta private:"""
+        # The parameter name is not a field reference, only rewrite its value:
+        return ast.NamedParam(node.name, self.visit(node.param))
+
 
 class IdentifierStripper(NodeTransformer):
     """
